@@ -289,7 +289,14 @@ def _case(seed: int) -> Dict[str, Any]:
               p_same_ts_kernel=0.3)
     if seed % 3 == 2:
         kw["p_other_launch"] = 0.4  # linked host calls outside the usual launch names (graph / cooperative launches, synchronous copies): still the call that launched the activity
-    per_rank = gen.gen_trace_set(seed, n_ranks=1, **kw)
+    two_ranks = seed % 4 == 1  # one call for two ranks whose device streams differ (rank 1's streams are renumbered): every rank reports ITS streams
+    per_rank = gen.gen_trace_set(seed, n_ranks=2 if two_ranks else 1, **kw)
+    if two_ranks:
+        for e in per_rank[1]:
+            a = e.get("args")
+            if isinstance(a, dict) and isinstance(a.get("stream"), int) and a["stream"] > 0:
+                a["stream"] += 20
+                e["tid"] = a["stream"]
     fails: List[Dict[str, Any]] = []
     n = 0
     delay = [0, 5, 10, 30, 1000][seed % 5]
@@ -297,54 +304,65 @@ def _case(seed: int) -> Dict[str, Any]:
         inp = {"seed": seed, "delay": delay, "events": per_rank}
         try:
             ta = rt.lib(fails, "load", inp, rt.load_analysis, d)
-            df = ta.t.get_trace(0)
             stab = ta.t.symbol_table.get_sym_table()
             kcats = {"kernel", "Kernel", "gpu_memset", "Memset", "gpu_memcpy", "Memcpy", "mtia_ccp_events"}
-            dev = df[(df["stream"] != -1) & df["cat"].map(lambda c: stab[c] in kcats)]
-            if len(dev) == 0:
+            devs = {}
+            for rk in per_rank:
+                df_ = ta.t.get_trace(rk)
+                devs[rk] = df_[(df_["stream"] != -1) & df_["cat"].map(lambda c: stab[c] in kcats)]
+            if any(len(v) == 0 for v in devs.values()):
                 return {"n_checks": 0, "fails": [], "nontrivial": False, "clauses": {}}
-            all_streams = sorted(set(int(s) for s in dev["stream"]))
-            subset = None if seed % 2 else all_streams[:1]
+            streams_of = {rk: sorted(set(int(s) for s in v["stream"])) for rk, v in devs.items()}
+            subset = None if (seed % 2 or two_ranks) else streams_of[0][:1]
             inp["streams"] = subset
-            out, _ = rt.lib(fails, "get_idle_time_breakdown", inp, ta.get_idle_time_breakdown, ranks=[0], streams=subset, visualize=False, consecutive_kernel_delay=delay)
+            inp["ranks"] = sorted(per_rank)
+            out_all, _ = rt.lib(fails, "get_idle_time_breakdown", inp, ta.get_idle_time_breakdown, ranks=sorted(per_rank), streams=subset, visualize=False, consecutive_kernel_delay=delay)
         except rt.LibFailure:
             return {"n_checks": 1, "fails": fails, "nontrivial": True, "clauses": {}}
-        ts_of = {int(i): int(t) for i, t in zip(df["index"], df["ts"])}
-        for s in (subset or all_streams):
-            ks = dev[dev["stream"] == s].sort_values("ts", kind="stable")
-            rows = [(int(a), int(b), int(c)) for a, b, c in zip(ks["ts"], ks["dur"], ks["index_correlation"])]
-            exp = {"host_wait": 0, "kernel_wait": 0, "other": 0}
-            seen = set()
-            ok_order = all(rows[i][0] + rows[i][1] <= rows[i + 1][0] for i in range(len(rows) - 1))
-            if not ok_order or len({r[0] for r in rows}) != len(rows):
-                continue  # precondition: kernels of a stream do not overlap (ties in ts make the order ambiguous)
-            for (t0, d0, _), (t1, d1, ic) in zip(rows, rows[1:]):
-                gap = t1 - (t0 + d0)
-                launch = ts_of.get(ic) if ic > 0 else None
-                if launch is not None and launch > t0 + d0:
-                    exp["host_wait"] += gap
-                    seen.add("host_wait")
-                elif gap < delay:
-                    exp["kernel_wait"] += gap
-                    seen.add("kernel_wait")
-                else:
-                    exp["other"] += gap
-                    seen.add("other")
-            got = {r["idle_category"]: float(r["idle_time"]) for _, r in out[out["stream"] == s].iterrows()}
-            n += 1
-            span_minus_busy = (rows[-1][0] + rows[-1][1] - rows[0][0]) - sum(r[1] for r in rows)
-            bad = {k: (got.get(k, 0.0), v) for k, v in exp.items() if abs(got.get(k, 0.0) - v) > 1e-6}
-            if bad:
-                fails.append({"what": "category_sums", "input": inp, "observed": {"stream": s, **{k: v[0] for k, v in bad.items()}}, "expected": {k: v[1] for k, v in bad.items()}})
-            elif abs(sum(got.values()) - span_minus_busy) > 1e-6:
-                fails.append({"what": "sum_is_span_minus_busy", "input": inp, "observed": sum(got.values()), "expected": span_minus_busy})
-            tot = sum(exp.values())
-            if tot > 0 and not bad:
-                ratios = {r["idle_category"]: float(r["idle_time_ratio"]) for _, r in out[out["stream"] == s].iterrows()}
-                if abs(sum(ratios.values()) - 1.0) > 0.011 * max(1, len(ratios)):
-                    fails.append({"what": "ratios_add_up_to_one", "input": inp, "observed": ratios})
-        if subset is not None and set(int(x) for x in out["stream"]) - set(subset):
-            fails.append({"what": "stream_subset", "input": inp, "observed": sorted(set(int(x) for x in out["stream"])), "expected": subset})
+        for rk in sorted(per_rank):
+            df, dev, all_streams = ta.t.get_trace(rk), devs[rk], streams_of[rk]
+            out = out_all[out_all["rank"] == rk]
+            if subset is None:
+                reported = sorted(set(int(x) for x in out["stream"]))
+                need = [s_ for s_ in all_streams if len(dev[dev["stream"] == s_]) >= 2]
+                if any(s_ not in reported for s_ in need):
+                    fails.append({"what": "every_stream_of_the_rank_is_reported", "input": inp, "observed": {"rank": rk, "streams": reported}, "expected": {"streams_with_at_least_two_kernels": need}})
+            ts_of = {int(i): int(t) for i, t in zip(df["index"], df["ts"])}
+            for s in (subset or all_streams):
+                ks = dev[dev["stream"] == s].sort_values("ts", kind="stable")
+                rows = [(int(a), int(b), int(c)) for a, b, c in zip(ks["ts"], ks["dur"], ks["index_correlation"])]
+                exp = {"host_wait": 0, "kernel_wait": 0, "other": 0}
+                seen = set()
+                ok_order = all(rows[i][0] + rows[i][1] <= rows[i + 1][0] for i in range(len(rows) - 1))
+                if not ok_order or len({r[0] for r in rows}) != len(rows):
+                    continue  # precondition: kernels of a stream do not overlap (ties in ts make the order ambiguous)
+                for (t0, d0, _), (t1, d1, ic) in zip(rows, rows[1:]):
+                    gap = t1 - (t0 + d0)
+                    launch = ts_of.get(ic) if ic > 0 else None
+                    if launch is not None and launch > t0 + d0:
+                        exp["host_wait"] += gap
+                        seen.add("host_wait")
+                    elif gap < delay:
+                        exp["kernel_wait"] += gap
+                        seen.add("kernel_wait")
+                    else:
+                        exp["other"] += gap
+                        seen.add("other")
+                got = {r["idle_category"]: float(r["idle_time"]) for _, r in out[out["stream"] == s].iterrows()}
+                n += 1
+                span_minus_busy = (rows[-1][0] + rows[-1][1] - rows[0][0]) - sum(r[1] for r in rows)
+                bad = {k: (got.get(k, 0.0), v) for k, v in exp.items() if abs(got.get(k, 0.0) - v) > 1e-6}
+                if bad:
+                    fails.append({"what": "category_sums", "input": inp, "observed": {"stream": s, **{k: v[0] for k, v in bad.items()}}, "expected": {k: v[1] for k, v in bad.items()}})
+                elif abs(sum(got.values()) - span_minus_busy) > 1e-6:
+                    fails.append({"what": "sum_is_span_minus_busy", "input": inp, "observed": sum(got.values()), "expected": span_minus_busy})
+                tot = sum(exp.values())
+                if tot > 0 and not bad:
+                    ratios = {r["idle_category"]: float(r["idle_time_ratio"]) for _, r in out[out["stream"] == s].iterrows()}
+                    if abs(sum(ratios.values()) - 1.0) > 0.011 * max(1, len(ratios)):
+                        fails.append({"what": "ratios_add_up_to_one", "input": inp, "observed": ratios})
+            if subset is not None and set(int(x) for x in out["stream"]) - set(subset):
+                fails.append({"what": "stream_subset", "input": inp, "observed": sorted(set(int(x) for x in out["stream"])), "expected": subset})
     return {"n_checks": n, "fails": fails, "nontrivial": n > 0, "sample": {"seed": seed, "delay": delay}, "clauses": {"category_sums": n}}
 
 
